@@ -12,6 +12,7 @@ import (
 	"encoding/json"
 	"fmt"
 	"math"
+	"os"
 	"strings"
 	"time"
 
@@ -202,7 +203,11 @@ func c08Run(cfg c08Cfg, plan c08Plan) c08Out {
 		return out
 	}
 	if len(s.shadowViol) > 0 {
-		add("not-durable", s.shadowViol[0]+"; history: "+s.history())
+		tr := ""
+		if os.Getenv("C08_TRACE") != "" {
+			tr = fmt.Sprintf("; plan %+v; trace: %s", plan, strings.Join(s.trace, " | "))
+		}
+		add("not-durable", s.shadowViol[0]+"; history: "+s.history()+tr)
 		return out
 	}
 	if plan.At >= 0 && !crashed {
@@ -254,6 +259,16 @@ func c08Run(cfg c08Cfg, plan c08Plan) c08Out {
 	s.takePanics()
 	if len(s.panics) > 0 {
 		add("node-panic", "after restart a node goroutine panicked: "+strings.Join(s.panics, " | "))
+		return out
+	}
+	// the durability invariant also covers the restart and the election that follows it (a voter that
+	// grants its vote again in a new term promises it from its files, like the first time)
+	if len(s.shadowViol) > 0 {
+		tr := ""
+		if os.Getenv("C08_TRACE") != "" {
+			tr = fmt.Sprintf("; plan %+v; trace: %s", plan, strings.Join(s.trace, " | "))
+		}
+		add("not-durable", s.shadowViol[0]+"; history: "+s.history()+tr)
 		return out
 	}
 	if s.leader() < 0 {
